@@ -40,6 +40,12 @@ func fnBitCount(ctx *cmdContext, args map[string]any) (output respValue, err err
 		length *= 8
 	}
 
+	// both indexes count from the end and are in the wrong order: empty range
+	if start < 0 && end < 0 && start > end {
+		output.data = respInt(0)
+		return
+	}
+
 	// right side indexing
 	if start < 0 {
 		start = length + start
@@ -48,18 +54,21 @@ func fnBitCount(ctx *cmdContext, args map[string]any) (output respValue, err err
 		end = length + end
 	}
 
-	// bounds checking
+	// bounds checking (an index before the first position means the first position)
 	if start < 0 {
 		start = 0
-	} else if start >= length {
-		start = length - 1
+	}
+	if end < 0 {
+		end = 0
+	}
+	if end >= length {
+		end = length - 1
 	}
 
-	if end < start {
+	// empty string, or a range that starts after it ends (which includes a start beyond the end)
+	if start > end {
 		output.data = respInt(0)
 		return
-	} else if end >= length {
-		end = length - 1
 	}
 
 	if bitMode {
